@@ -145,7 +145,8 @@ def o2(prog, rep):
                       "verify:message=canonical", "verified bytes are not the canonical vote "
                       "extension", ver[0].where())
     # non-commit votes: both emptiness checks before `continue`
-    eq = [c for c in comparisons(body) if c.op == "Eq" and re.search(VOTE + r"\.sig_info$", c.a + "|" + c.b)]
+    eq = [c for c in comparisons(body) if c.op == "Eq" and
+          (re.search(VOTE + r"\.sig_info$", c.a) or re.search(VOTE + r"\.sig_info$", c.b))]
     ie = [c for c in body.calls if c.matches(r"::is_empty$") and re.search(VOTE + r"\.vote_extension", body.root(c.args[0]))]
     inn = [c for c in body.calls if c.matches(r"Option::<T>::is_none$") and re.search(VOTE + r"\.extension_signature", body.root(c.args[0]))]
     ok = False
